@@ -827,6 +827,37 @@ def run_variant(prog, variant, timeout_s=120, queries=("sound", "honest"), first
                         res = rc
                         break
                 d.update(result=res, time=round(total, 4), split=dict(wires=cand, cases=cases, domains=[sorted(doms[w]) for w in cand]))
+            if d["result"] == "unknown" and inw:
+                # last resort: fix the first input wire(s) to each of the p field values
+                total, cases, pending = d["time"], 0, [dict()]
+                res = "unsat"
+                for level in range(min(2, len(inw))):
+                    nxt = []
+                    for fx in pending:
+                        for v in range(P):
+                            fixed = dict(fx)
+                            fixed[inw[level]] = v
+                            Fc, valc, relc, _ = build(fixed)
+                            Fc.require(-relc)
+                            rc, mc, dtc, _ = solve(Fc, first_timeout)
+                            total += dtc
+                            cases += 1
+                            if rc == "sat":
+                                res = "sat"
+                                d["cex"] = cex_of(Fc, mc, valc)
+                                break
+                            if rc != "unsat":
+                                nxt.append(fixed)
+                        if res == "sat":
+                            break
+                    if res == "sat":
+                        break
+                    pending = nxt
+                    if not pending:
+                        break
+                if res != "sat" and pending:
+                    res = "unknown"
+                d.update(result=res, time=round(total, 4), full_domain_split=dict(cases=cases))
         F.restore(snap)
         # vacuity twin: constraints together with the relation must be satisfiable
         F2 = FD(P)
@@ -901,6 +932,32 @@ def run_variant(prog, variant, timeout_s=120, queries=("sound", "honest"), first
                     return rc, total, None, dict(inputs=cand, cases=cases)
             return "unsat", total, None, dict(inputs=cand, cases=cases, domains=[doms[k] for k in cand])
 
+        def full_split(mk_query, depth=2):
+            """last resort: fix the first input(s) to each of the p field values (p, then p^2 cases)"""
+            if nin == 0:
+                return None
+            total, cases = 0.0, 0
+            pending = [dict()]
+            for level in range(min(depth, nin)):
+                nxt = []
+                for fx in pending:
+                    for v in range(P):
+                        fixed = dict(fx)
+                        fixed[("in", level)] = v
+                        t = buildh(fixed)
+                        mk_query(*t)
+                        rc, mc, dtc, _ = solve(t[0], first_timeout)
+                        total += dtc
+                        cases += 1
+                        if rc == "sat":
+                            return "sat", total, dict(inputs=[t[0].value(mc, x) for x in t[1]], outputs=[t[0].value(mc, x) for x in t[2]]), dict(full_domain_inputs=level + 1, cases=cases)
+                        if rc != "unsat":
+                            nxt.append(fixed)
+                pending = nxt
+                if not pending:
+                    return "unsat", total, None, dict(full_domain_inputs=level + 1, cases=cases)
+            return "unknown", total, None, dict(full_domain_inputs=min(depth, nin), cases=cases, undecided_cases=len(pending))
+
         F, ins, outs, val, anyfail, rel = buildh({})
         snap = F.snapshot()
         F.require(rel)
@@ -912,7 +969,10 @@ def run_variant(prog, variant, timeout_s=120, queries=("sound", "honest"), first
         if r == "sat":
             d["cex"] = dict(inputs=[F.value(m, x) for x in ins], outputs=[F.value(m, x) for x in outs])
         elif r == "unknown":
-            sr = split_run(lambda F, ins, outs, val, anyfail, rel: (F.require(rel), F.require(anyfail)))
+            hq = lambda F, ins, outs, val, anyfail, rel: (F.require(rel), F.require(anyfail))
+            sr = split_run(hq)
+            if not sr or sr[0] == "unknown":
+                sr = full_split(hq)
             if sr:
                 d.update(result=sr[0], time=round(dt + sr[1], 4), split=sr[3])
                 if sr[2]:
@@ -942,6 +1002,12 @@ def run_variant(prog, variant, timeout_s=120, queries=("sound", "honest"), first
         d = rec("forward-consistent", r, "unsat", dt, F)
         if r == "sat":
             d["cex"] = dict(inputs=[F.value(m, x) for x in ins], outputs=[F.value(m, x) for x in outs])
+        elif r == "unknown":
+            sr = full_split(fwdq)
+            if sr:
+                d.update(result=sr[0], time=round(dt + sr[1], 4), split=sr[3])
+                if sr[2]:
+                    d["cex"] = sr[2]
     return results
 
 
